@@ -33,6 +33,12 @@ func (c *IfPresent) Prohibits(a macaroon.Access) error {
 		return macaroon.ErrInvalidAccess
 	}
 
+	// an IfPresent that decoded without its Ifs (wire nil, empty body) means
+	// nothing: refuse it
+	if c.Ifs == nil {
+		return fmt.Errorf("%w: IfPresent without Ifs", macaroon.ErrBadCaveat)
+	}
+
 	var (
 		err      error
 		ifBranch bool
@@ -54,5 +60,8 @@ func (c *IfPresent) Prohibits(a macaroon.Access) error {
 }
 
 func (c *IfPresent) Unwrap() *macaroon.CaveatSet {
+	if c.Ifs == nil {
+		return macaroon.NewCaveatSet()
+	}
 	return c.Ifs
 }
